@@ -149,8 +149,8 @@ func condHost() string { return fmt.Sprintf("req_host_in(%q)", hostCovered) }
 
 const (
 	apr1Doc   = "$apr1$mI7SilJz$CWwYJyYKbhVDNl26sdUSh/" // docs/en_us/modules/mod_auth_basic: user1, 123456
-	shaDoc    = "{SHA}fEqNCco3Yq9h5ZUglD3CZJT4lBs="       // docs: user2, 123456
-	apr1Colon = "$apr1$Zx9QpL2m$HBsOmkrKV9qh3J.BwWdnG."  // openssl passwd -apr1 -salt Zx9QpL2m 'a:b:c'
+	shaDoc    = "{SHA}fEqNCco3Yq9h5ZUglD3CZJT4lBs="     // docs: user2, 123456
+	apr1Colon = "$apr1$Zx9QpL2m$HBsOmkrKV9qh3J.BwWdnG." // openssl passwd -apr1 -salt Zx9QpL2m 'a:b:c'
 )
 
 func shaHash(pw string) string {
@@ -220,7 +220,7 @@ func basicHeader(cred string) (string, bool) {
 	case "other-users-pass":
 		return "Basic " + enc("u_apr1:pw-bcrypt"), true
 	case "hash-as-pass":
-		return "Basic " + enc("u_sha:" + shaDoc), true
+		return "Basic " + enc("u_sha:"+shaDoc), true
 	case "pass-case":
 		return "Basic " + enc("u_colon:A:B:C"), true
 	case "unknown-user":
